@@ -1,6 +1,7 @@
 package types
 
 import (
+	clienttypes "github.com/teleport-network/teleport/x/xibc/core/client/types"
 	"github.com/teleport-network/teleport/x/xibc/exported"
 
 	sdk "github.com/cosmos/cosmos-sdk/types"
@@ -13,8 +14,9 @@ func (h Header) ClientType() string {
 	return exported.TSS
 }
 
+// GetHeight returns the zero height: a TSS client has no heights (see ClientState.GetLatestHeight)
 func (h Header) GetHeight() exported.Height {
-	return nil
+	return clienttypes.Height{}
 }
 
 func (h Header) ValidateBasic() error {
